@@ -678,9 +678,9 @@ class RosFormatter(CommonFormatter):
                     yield BlockEnd, None
             else:
                 for row, _, row_context in row_group:
-                    if context and context.parent and context.parent.row:
-                        prev_prow, prev_prow_context = context.parent.current
-                        prow = f"{context.parent.row} {row}"
+                    if context and context.row:
+                        prev_prow, prev_prow_context = context.current
+                        prow = f"{context.row} {row}"
                     else:
                         prow = row
                     yield prow, row_context
